@@ -65,11 +65,22 @@ pub enum Sched {
     /// consume sizes from the list, then satisfy fully
     List(Vec<usize>, usize),
     Random(Rng, usize),
+    /// block-oriented stream: one transfer never crosses a multiple of the page size (position dependent)
+    Page(usize),
 }
 
 impl Sched {
+    fn next_at(&mut self, pos: u64) -> usize {
+        if let Self::Page(p) = self {
+            let p = (*p).max(1) as u64;
+            return (p - pos % p) as usize;
+        }
+        self.next()
+    }
+
     fn next(&mut self) -> usize {
         match self {
+            Self::Page(p) => (*p).max(1),
             Self::Full => usize::MAX,
             Self::Fixed(n) => (*n).max(1),
             Self::List(v, i) => {
@@ -90,6 +101,7 @@ impl Sched {
             Self::Fixed(n) => format!("fixed({n})"),
             Self::List(v, _) => format!("list({v:?})"),
             Self::Random(_, m) => format!("random(1..={m})"),
+            Self::Page(p) => format!("page({p})"),
         }
     }
 }
@@ -195,7 +207,7 @@ impl Core {
         let avail = self.data.len() - start;
         let mut n = buf.len().min(avail);
         if n > 0 {
-            let s = self.rsched.next();
+            let s = self.rsched.next_at(self.pos);
             if s < n {
                 n = s;
                 self.short_transfers += 1;
@@ -220,7 +232,7 @@ impl Core {
         self.gate(OpKind::Write, buf.len() as u64)?;
         let mut n = buf.len();
         if n > 0 {
-            let s = self.wsched.next();
+            let s = self.wsched.next_at(self.pos);
             if s < n {
                 n = s;
                 self.short_transfers += 1;
